@@ -11,51 +11,51 @@ open Genshi.Escape Genshi.Str
 
 /-! ### merging character data, generically in what a finished run becomes -/
 
-def coalesceWith (fl : List Char → List Ev) : List Char → List Ev → List Ev
-  | pend, [] => fl pend
-  | pend, .text s f :: rest => coalesceWith fl (pend ++ textValue s f) rest
-  | pend, .start t a :: rest => fl pend ++ .start t a :: coalesceWith fl [] rest
-  | pend, .end_ t :: rest => fl pend ++ .end_ t :: coalesceWith fl [] rest
+def coalesceWith (fl : Nat → List Char → List Ev) (pres : List Name) : Nat → List Char → List Ev → List Ev
+  | p, pend, [] => fl p pend
+  | p, pend, .text s f :: rest => coalesceWith fl pres p (pend ++ textValue s f) rest
+  | p, pend, .start t a :: rest => fl p pend ++ .start t a :: coalesceWith fl pres (presStep pres p t) [] rest
+  | p, pend, .end_ t :: rest => fl p pend ++ .end_ t :: coalesceWith fl pres (p - 1) [] rest
 
-theorem coalesceGo_eq_with (pend : List Char) (evs : List Ev) :
-    coalesceGo pend evs = coalesceWith flushData pend evs := by
+theorem coalesceGo_eq_with (pres : List Name) (pend : List Char) (evs : List Ev) :
+    ∀ p, coalesceGo pend evs = coalesceWith (fun _ => flushData) pres p pend evs := by
   induction evs generalizing pend with
-  | nil => rfl
-  | cons e es ih => cases e <;> simp [coalesceGo, coalesceWith, ih]
+  | nil => intro p; rfl
+  | cons e es ih => intro p; cases e <;> simp only [coalesceGo, coalesceWith] <;> rw [ih]
 
-theorem coalesceStripGo_eq_with (pend : List Char) (evs : List Ev) :
-    coalesceStripGo pend evs = coalesceWith flushDataS pend evs := by
-  induction evs generalizing pend with
+theorem coalesceStripGo_eq_with (pres : List Name) (p : Nat) (pend : List Char) (evs : List Ev) :
+    coalesceStripGo pres p pend evs = coalesceWith flushDataP pres p pend evs := by
+  induction evs generalizing pend p with
   | nil => rfl
   | cons e es ih => cases e <;> simp [coalesceStripGo, coalesceWith, ih]
 
 /-- two event lists a reader cannot tell apart, in any context -/
 def TEq (a b : List Ev) : Prop :=
-  ∀ (fl : List Char → List Ev) (pend : List Char) (rest : List Ev),
-    coalesceWith fl pend (a ++ rest) = coalesceWith fl pend (b ++ rest)
+  ∀ (fl : Nat → List Char → List Ev) (pres : List Name) (p : Nat) (pend : List Char) (rest : List Ev),
+    coalesceWith fl pres p pend (a ++ rest) = coalesceWith fl pres p pend (b ++ rest)
 
-theorem TEq.refl (a : List Ev) : TEq a a := fun _ _ _ => rfl
+theorem TEq.refl (a : List Ev) : TEq a a := fun _ _ _ _ _ => rfl
 
 theorem TEq.trans {a b c : List Ev} (h1 : TEq a b) (h2 : TEq b c) : TEq a c :=
-  fun fl pend rest => (h1 fl pend rest).trans (h2 fl pend rest)
+  fun fl pres p pend rest => (h1 fl pres p pend rest).trans (h2 fl pres p pend rest)
 
 theorem TEq.append {a a' b b' : List Ev} (h1 : TEq a a') (h2 : TEq b b') : TEq (a ++ b) (a' ++ b') := by
-  intro fl pend rest
-  rw [List.append_assoc, List.append_assoc, h1 fl pend (b ++ rest)]
+  intro fl pres p pend rest
+  rw [List.append_assoc, List.append_assoc, h1 fl pres p pend (b ++ rest)]
   -- now under the common prefix a'
-  have key : ∀ (x : List Ev) (pend : List Char),
-      coalesceWith fl pend (x ++ (b ++ rest)) = coalesceWith fl pend (x ++ (b' ++ rest)) := by
+  have key : ∀ (x : List Ev) (p : Nat) (pend : List Char),
+      coalesceWith fl pres p pend (x ++ (b ++ rest)) = coalesceWith fl pres p pend (x ++ (b' ++ rest)) := by
     intro x
     induction x with
-    | nil => intro pend; exact h2 fl pend rest
-    | cons e es ih => intro pend; cases e <;> simp [coalesceWith, ih]
-  exact key a' pend
+    | nil => intro p pend; exact h2 fl pres p pend rest
+    | cons e es ih => intro p pend; cases e <;> simp [coalesceWith, ih]
+  exact key a' p pend
 
 theorem TEq.wrap {a a' : List Ev} (t : Name) (at_ : List (Name × List Char)) (h : TEq a a') :
     TEq (.start t at_ :: (a ++ [.end_ t])) (.start t at_ :: (a' ++ [.end_ t])) := by
-  intro fl pend rest
+  intro fl pres p pend rest
   simp only [List.cons_append, List.append_assoc, coalesceWith]
-  rw [h fl [] (.end_ t :: ([] ++ rest))]
+  rw [h fl pres (presStep pres p t) [] (.end_ t :: ([] ++ rest))]
 
 /-- the character data of a list of TEXT events (other events contribute nothing: not used for them) -/
 def dataOf : List Ev → List Char
@@ -65,8 +65,9 @@ def dataOf : List Ev → List Char
 
 def allText (evs : List Ev) : Prop := ∀ e ∈ evs, ∃ s f, e = .text s f
 
-theorem coalesceWith_texts (fl : List Char → List Ev) (evs : List Ev) (h : allText evs) :
-    ∀ pend rest, coalesceWith fl pend (evs ++ rest) = coalesceWith fl (pend ++ dataOf evs) rest := by
+theorem coalesceWith_texts (fl : Nat → List Char → List Ev) (pres : List Name) (p : Nat) (evs : List Ev)
+    (h : allText evs) :
+    ∀ pend rest, coalesceWith fl pres p pend (evs ++ rest) = coalesceWith fl pres p (pend ++ dataOf evs) rest := by
   induction evs with
   | nil => intro pend rest; simp [dataOf]
   | cons e es ih =>
@@ -78,8 +79,8 @@ theorem coalesceWith_texts (fl : List Char → List Ev) (evs : List Ev) (h : all
 
 /-- text events with the same character data are indistinguishable -/
 theorem TEq.texts {a b : List Ev} (ha : allText a) (hb : allText b) (h : dataOf a = dataOf b) : TEq a b := by
-  intro fl pend rest
-  rw [coalesceWith_texts fl a ha, coalesceWith_texts fl b hb, h]
+  intro fl pres p pend rest
+  rw [coalesceWith_texts fl pres p a ha, coalesceWith_texts fl pres p b hb, h]
 
 /-! ### markup that is escaped text -/
 
@@ -157,7 +158,7 @@ def Closed (m : Method) (evs : List Ev) : Prop :=
   (∀ t rest, evs ≠ [] → emptyOkGo m (some t) (evs ++ rest) = (openOk m t && emptyOkGo m none rest))
 
 structure StreamOk (m : Method) (evs : List Ev) : Prop where
-  ev : ∀ e ∈ evs, evOkB m e = true ∧ noPreserveB m e = true
+  ev : ∀ e ∈ evs, evOkB m e = true
   safe : TextsOk evs
   closed : Closed m evs
 
@@ -166,7 +167,7 @@ theorem StreamOk.nil (m : Method) : StreamOk m [] :=
 
 theorem StreamOk.text (m : Method) (s : List Char) (f : Bool) (h : f = true → SafeOk s) :
     StreamOk m [.text s f] := by
-  refine ⟨by simp [evOkB, noPreserveB], ?_, ⟨by simp [emptyOkGo], by intro t rest _; simp [emptyOkGo]⟩⟩
+  refine ⟨by simp [evOkB], ?_, ⟨by simp [emptyOkGo], by intro t rest _; simp [emptyOkGo]⟩⟩
   intro s' hs'
   simp only [List.mem_singleton, Ev.text.injEq] at hs'
   rw [hs'.1]; exact h hs'.2.symm
@@ -195,7 +196,7 @@ theorem StreamOk.wrap {m : Method} {kids : List Ev} (t : Name) (at_ : List (Name
     (ht : tagOkB m t = true) (hat : attrsOkB m at_ = true) (hvoid : openOk m t = true ∨ kids = [])
     (hk : StreamOk m kids) : StreamOk m (.start t at_ :: (kids ++ [.end_ t])) := by
   simp only [tagOkB, Bool.and_eq_true, Bool.not_eq_true'] at ht
-  obtain ⟨⟨hn, hne⟩, hpr⟩ := ht
+  obtain ⟨hn, hne⟩ := ht
   have hkey : ∀ rest, emptyOkGo m (some t) (kids ++ (.end_ t :: rest)) = emptyOkGo m none rest := by
     intro rest
     by_cases hke : kids = []
@@ -208,9 +209,9 @@ theorem StreamOk.wrap {m : Method} {kids : List Ev} (t : Name) (at_ : List (Name
   · intro e he
     simp only [List.mem_cons, List.mem_append, List.not_mem_nil, or_false] at he
     rcases he with rfl | h | rfl
-    · simp only [evOkB, noPreserveB, hn, hne, hpr, hat]; simp
+    · simp only [evOkB, hn, hne, hat]; simp
     · exact hk.ev e h
-    · simp [evOkB, noPreserveB, hn]
+    · simp [evOkB, hn]
   · intro s hs
     simp only [List.mem_cons, List.mem_append, List.not_mem_nil, or_false] at hs
     rcases hs with h | h | h
